@@ -112,6 +112,8 @@ def run(case, ctx, rng):
         h2 = call(MD6, d, kb, L)
         if not is_exc(h2):
             if r is not None: h2.rounds = r
+            call(h2, M, 8 * len(M) + 5); call(h2, 'text, not bytes'); call(h2, None)          # refused calls first
+            ctx.eq('md6==spec', call(h2, M), got, after='refused calls (bit length beyond the data, wrong argument types)', **det)
             ctx.eq('md6==spec', call(h2, M), got, key_as='bytearray', **det)
             for i in range(len(kb)): kb[i] = 0
             del kb[len(kb) // 2:]
